@@ -18,10 +18,10 @@ KWC = ['KNormal', 'KFlexStart', 'KFlexEnd', 'KStart', 'KEnd', 'KLeft', 'KRight',
        'KAround', 'KEvenly', 'KStretch']
 WRAP = ['nowrap', 'wrap', 'wrap-reverse']
 
-# known deviations of the implementation from css-flexbox, by trigger region (see the report of C12)
-SIG_STARTEND = 'flex:justify-start-end-reversed'
-SIG_NEGFREE = 'flex:negative-free-space-no-fallback'
-SIG_STRETCH = 'flex:justify-stretch-grows'
+# residual deviations of the implementation from css-flexbox / css-align, by trigger region (reported)
+SIG_COLLR = 'flex:justify-left-right-column'          # open known finding (e)
+SIG_STRETCH_REV = 'flex:justify-stretch-reverse'      # stretch must behave as flex-start, also under *-reverse
+SIG_FALLBACK_REV = 'flex:fallback-flex-start-reverse'  # space-between fallback is flex-start = main-start side
 
 
 def fnum(x):
@@ -47,9 +47,8 @@ def gen_row(rng, profile):
     gap = rng.choice([0, 0, 4, 10, 16, 20])
     wrap = rng.choice([0, 0, 0, 1, 1, 2])
     reverse = rng.random() < 0.25
-    kws = [k for k in KW if wide or k != 'stretch']
-    kw = rng.choice(['normal', 'flex-start'] + kws)
-    if not wide and reverse and kw in ('start', 'end'):
+    kw = rng.choice(['normal', 'flex-start'] + KW)
+    if not wide and reverse and kw in ('stretch', 'space-between'):
         kw = 'flex-start'
     frac = wide and rng.random() < 0.3
     items = []
@@ -155,14 +154,11 @@ def coq_row_case(c, out):
 
 
 def row_triggers(c, mask):
-    """which known deviation region (if any) a css-reference disagreement falls in"""
-    its = c['items']
-    if c['kw'] == 'stretch':
-        return SIG_STRETCH
-    if c['reverse'] and c['kw'] in ('start', 'end'):
-        return SIG_STARTEND
-    if mask & 4:
-        return SIG_NEGFREE
+    """which reported deviation region (if any) a css-reference disagreement falls in"""
+    if c['reverse'] and c['kw'] == 'stretch':
+        return SIG_STRETCH_REV
+    if c['reverse'] and c['kw'] == 'space-between' and mask & 4:
+        return SIG_FALLBACK_REV
     return None
 
 
